@@ -363,15 +363,24 @@ fn through_a_connection(ctx: &Ctx, rng: &mut Rng) {
             let m1_p = Val::Tuple(vec![Val::atom("keep_a"), Val::atom("keep_b"), Val::atom("alpha")]);
             let m1 = write_message(&[r("keep_a", seg, s1, true), r("keep_b", seg, s2, true), r("alpha", seg, s3, true)], &[&control(1), &m1_p]);
             let a_p = Val::Tuple(vec![Val::atom("keep_b"), Val::atom("keep_a"), Val::binary(&vec![0x41; 100 + rng.below(300)])]);
-            let a_refs = [r("keep_a", seg, s1, false), r("keep_b", seg, s2, false)];
+            // every other history: the fragmented message's own header (in its first fragment) creates an entry, and the
+            // message in between - sent after that first fragment - already relies on it
+            let relies = h % 2 == 1;
+            let s5 = 240 + rng.below(15) as u8;
+            let a_p = if relies { Val::Tuple(vec![Val::atom("keep_b"), Val::atom("from_the_first_fragment"), Val::binary(&vec![0x41; 100 + rng.below(300)])]) } else { a_p };
+            let a_refs = if relies { vec![r("keep_b", seg, s2, false), r("from_the_first_fragment", seg, s5, true)] } else { vec![r("keep_a", seg, s1, false), r("keep_b", seg, s2, false)] };
             let a = write_message(&a_refs, &[&control(2), &a_p]);
-            let b_p = Val::Tuple(vec![Val::atom("beta"), Val::atom("gamma")]);
-            let b = write_message(&[r("beta", seg, s3, true), r("gamma", seg, s4, true)], &[&control(3), &b_p]);
+            let b_p = if relies { Val::Tuple(vec![Val::atom("beta"), Val::atom("gamma"), Val::atom("from_the_first_fragment")]) } else { Val::Tuple(vec![Val::atom("beta"), Val::atom("gamma")]) };
+            let mut b_refs = vec![r("beta", seg, s3, true), r("gamma", seg, s4, true)];
+            if relies {
+                b_refs.push(r("from_the_first_fragment", seg, s5, false));
+            }
+            let b = write_message(&b_refs, &[&control(3), &b_p]);
             let c_p = Val::Tuple(vec![Val::atom("gamma"), Val::atom("beta"), Val::atom("keep_a")]);
             let c = write_message(&[r("beta", seg, s3, false), r("gamma", seg, s4, false), r("keep_a", seg, s1, false)], &[&control(4), &c_p]);
             // fragments of A: the first carries the whole header part
             let body = a[2..].to_vec();
-            let header_len = 1 + a_refs.len() / 2 + 1 + a_refs.len();
+            let header_len = 1 + a_refs.len() / 2 + 1 + a_refs.iter().map(|x| 1 + if x.new_entry { 1 + x.atom.len() } else { 0 }).sum::<usize>();
             let nfrag = 2 + rng.below(3);
             let seq: u64 = 0xA14_0000 + h as u64;
             let mut a_frames: Vec<Vec<u8>> = Vec::new();
@@ -402,18 +411,27 @@ fn through_a_connection(ctx: &Ctx, rng: &mut Rng) {
             let own = edp_client::DistributionFlags::default().as_u64() | FLAG_DIST_HDR_ATOM_CACHE | FLAG_FRAGMENTS;
             let out = super::c06::scenario(&epmd, &format!("ac{}", h), own, PEER_BASE_FLAGS | FLAG_DIST_HDR_ATOM_CACHE | FLAG_FRAGMENTS, stream, vec![], nfrag + 10).await;
             ctx.eval(4);
-            ctx.class(&format!("connection/whole-message-between-fragments/{}fragments/after-fragment-{}", nfrag, between_at));
+            ctx.class(&format!("connection/whole-message-between-fragments/{}fragments/after-fragment-{}{}", nfrag, between_at, if relies { "/relies-on-the-first-fragment's-entries" } else { "" }));
             if let Some(e) = &out.connect_error {
                 ctx.inconclusive(&format!("handshake with the scripted peer failed: {}", e));
                 continue;
             }
             let payloads: Vec<String> = out.results.iter().map(|r| match r { Ok((_, Some(p))) => p.show(), Ok((_, None)) => "no payload".into(), Err(e) => format!("error: {}", e) }).collect();
             let want: Vec<String> = vec![m1_p.show(), b_p.show(), a_p.show(), c_p.show(), Val::atom("$end$").show()];
-            if out.panicked.is_some() || payloads != want {
+            // one way of failing has a name of its own (a recorded finding): everything is as it should be except that the
+            // message in between, which relies on an entry the first fragment's header created, is refused
+            let only_the_relying_message_refused = relies && out.panicked.is_none() && payloads.len() == want.len() && payloads.iter().zip(want.iter()).enumerate().all(|(i, (g, w))| if i == 1 { g.starts_with("error:") } else { g == w });
+            if only_the_relying_message_refused {
+                ctx.viol(
+                    "C14:connection:entry-created-by-a-first-fragment-not-in-force-until-the-sequence-completes",
+                    "a message sent between the fragments of another and relying on a cache entry that the other's first fragment created was refused: the header of a fragmented message takes effect only when its last fragment has arrived",
+                    json!({"history": h, "fragments": nfrag, "whole_message_after_fragment": between_at, "returned": payloads.iter().map(|p| p.chars().take(90).collect::<String>()).collect::<Vec<_>>()}),
+                );
+            } else if out.panicked.is_some() || payloads != want {
                 ctx.viol(
                     "C14:connection:entries-set-up-between-the-fragments-of-another-message",
                     "through a connection, a message that arrived between the fragments of another set up cache entries that later messages could not rely on (or a message was not resolved to the atoms the sender meant)",
-                    json!({"history": h, "fragments": nfrag, "whole_message_after_fragment": between_at, "segment": seg, "returned": payloads.iter().map(|p| p.chars().take(90).collect::<String>()).collect::<Vec<_>>(), "expected": want.iter().map(|p| p.chars().take(90).collect::<String>()).collect::<Vec<_>>(), "panic": out.panicked}),
+                    json!({"history": h, "message_in_between_relies_on_an_entry_the_first_fragment_created": relies, "fragments": nfrag, "whole_message_after_fragment": between_at, "segment": seg, "returned": payloads.iter().map(|p| p.chars().take(90).collect::<String>()).collect::<Vec<_>>(), "expected": want.iter().map(|p| p.chars().take(90).collect::<String>()).collect::<Vec<_>>(), "panic": out.panicked}),
                 );
             }
         }
